@@ -1,5 +1,5 @@
 from ..driver import Prop, Suite
-from .. import unigen
+from .. import unigen, multigen
 
 F1 = "uni chan=move_atomic N=8 M=1 k=1 origin=0 ; drive:0 ; send:100 ; send:101 ; send:102 ; S 0 0 0 0 0 0 0 0 0 1 1 2 2 3 3 1 1 1 1 0 0 0 0 0 0 0 0 0 0 0 0 2 2 2 2 0 0 0 0 0 0 0 0 0 0 0 0 3 3 3 3 3 3 0 0 0 1 2 3 0 1 2 3 0 1 2 3 0"
 F13 = "uni chan=move_atomic N=8 M=2 k=2 origin=0 ; drive:0 ; drive:1 ; send:7 ; S 1 1 1 1 1 1 1 1 1 1 1 1 0 0 0 0 0 0 0 0 0 0 0 0 0 0 0 2 2 2 2 2 2 0 0 0 0 0 0 1 1 1 0 1 2 0 1 2 0 1 2"
@@ -7,6 +7,9 @@ F13 = "uni chan=move_atomic N=8 M=2 k=2 origin=0 ; drive:0 ; drive:1 ; send:7 ; 
 F15 = "uni chan=move_atomic N=8 M=1 k=1 origin=0 ; drive:0 ; send:1 send:2 send:3 ; S 1 1 1 1 1 1 1 1 1 1 1 1 1 1 1 1 1 1 0 0 0 0 0 0 0 0 0 0 0 0 0 0 0 0 0 0 0 0 0 0 0 0 0 0 0 0 0 0 0 0 0 0 0 0 0 0 0 0 1 1 1 1 0 0 0 0 0 0 0 1 0 1 0 1"
 
 F17 = "uni chan=crossbeam N=4 M=1 k=1 origin=0 ; send:1 send:2 send:3 send:4 ; drive:0 ; S " + "0 " * 19 + "1 " * 40 + "0 " * 6 + "1 " * 6 + "0 1 " * 6
+
+F19 = "multi chan=arc_atomic N=8 M=1 k=1 ; send:1000 ; send:2000 ; send:3000 ; drive:0 ; S " + "2 " * 17 + "3 3 " + "1 " * 14 + "0 0 0 " + "3 " * 24 + "0 1 2 3 " * 14
+MULTI_KINDS = ("arc_atomic", "arc_full_sync", "arc_crossbeam", "ogre_arc_atomic", "ogre_arc_full_sync", "mmap_log")
 
 class C04(Prop):
     pid = "C04"; prop_file = ["C04.v", "C04W.v", "C04Z.v", "C04M.v"]
@@ -26,15 +29,24 @@ class C04(Prop):
         fa = [unigen.gen_entry_case(rng, "move_full_sync", reserve_ok=False) for _ in range(n // 3)]
         return [Suite("uni_move_full_sync", unigen.HEADER, fs), Suite("uni_move_atomic", unigen.HEADER, at),
                 Suite("uni_move_atomic_entry_points", unigen.XHEADER, en), Suite("uni_move_full_sync_async", unigen.HEADER, fa),
-                Suite("uni_crossbeam_known_finding", unigen.XHEADER, [unigen.parse_case_line(F17.strip())])
+                Suite("uni_crossbeam_known_finding", unigen.XHEADER, [unigen.parse_case_line(F17.strip())]),
+                # the six Multi kinds with task-driven listeners (arc/atomic and arc/full_sync in lock-step with Multi.v / MultiFS.v, the others oracle only)
+                ] + [Suite("multi_" + kind, multigen.HEADER, ([multigen.parse_case_line(F19.strip())] if kind == "arc_atomic" else []) + [multigen.gen_wake(rng, kind) for _ in range(n // 3)])
+                     for kind in MULTI_KINDS] + [
                 ] + unigen.oracle_only_suites(rng, n // 3, profile="drive", tail_rounds=60) + [
                 # the executor passes a different waker at some polls: movable kinds in lock-step with the machine of Chan/ChanW.v, the others oracle only
                 Suite("waker_switch_%s" % ch, unigen.XHEADER, [unigen.gen_waker_switch_case(rng, ch) for _ in range(n // 6)])
                 for ch in ("move_full_sync", "move_atomic", "zc_atomic", "zc_full_sync", "crossbeam")]
     def oracle(self, case, recs):
+        if case.line.startswith("multi"): return multigen.oracle_lost_wakeup(case, recs)
         return unigen.oracle_lost_wakeup(case, recs)
     def nontrivial(self, case, recs):
+        if case.line.startswith("multi"): return any(r[0] == "ret" and r[2] == 13 for r in recs)
         return unigen.uni_nontrivial(case, recs)
     def parse_replay(self, text):
         lines = [l for l in text.splitlines() if l.strip() and not l.startswith("#")]
+        if all(l.startswith("multi") for l in lines):
+            cases = [multigen.parse_case_line(l) for l in lines]
+            for c in cases: c.meta["profile"] = "fixed"
+            return Suite("replay", multigen.HEADER, cases)
         return Suite("replay", unigen.XHEADER, [unigen.parse_case_line(l) for l in lines])
